@@ -8,7 +8,7 @@ d=$(mktemp -d /tmp/sigseed-XXXX); v=$(mktemp -d /tmp/sigseedv-XXXX)
 cp -r /repo/. $d/ ; rm -rf $d/.git; cp /verif/known_findings.json $v/
 # 1. demo passes on the unchanged library
 cp $src/demo_test.go $d/zz_seed_demo_test.go
-base=$(cd $d && go test $RACE -count=1 -run 'TestSeed' . 2>&1 | tail -1)
+base=$(cd $d && GOARCH=${DEMOARCH:-amd64} go test $RACE -count=1 -run 'TestSeed' . 2>&1 | tail -1)
 rm $d/zz_seed_demo_test.go
 # 2. patch applies, builds, vets, suite passes
 if ! (cd $d && patch -s -p1 < $src/patch.diff); then echo "PATCH FAILED"; rm -rf $d $v; exit 9; fi
@@ -17,7 +17,7 @@ b=$(cd $d && go build ./... 2>&1 | head -3; go vet ./... 2>&1 | head -3)
 suite=$(cd $d && go test -vet=off -count=1 ./... 2>&1 | tail -1)
 # 3. demo fails with the patch
 cp $src/demo_test.go $d/zz_seed_demo_test.go
-demo=$(cd $d && go test $RACE -count=1 -run 'TestSeed' . 2>&1 | grep -m3 -- "--- FAIL\|^FAIL\|^ok\|panic:" | tr '\n' '|')
+demo=$(cd $d && GOARCH=${DEMOARCH:-amd64} go test $RACE -count=1 -run 'TestSeed' . 2>&1 | grep -m3 -- "--- FAIL\|^FAIL\|^ok\|panic:" | tr '\n' '|')
 rm $d/zz_seed_demo_test.go
 echo "unchanged+demo: $base"
 echo "patched: gofmt=[$fmtout] build/vet=[$b] suite: $suite"
